@@ -227,6 +227,10 @@ void PrettyPrinter::expr_nary(kind_t kind, uint32_t num)
     default: throw TypeException("Invalid operator");
     }
 
+    if (num == 0) {  // an empty list, e.g. "{ } control: ..."
+        st.push_back("{ }");
+        return;
+    }
     string s = st.back();
     st.pop_back();
     while (--num) {
